@@ -21,6 +21,7 @@ def model_check(ctx):
         "exact records: source-free single forward() steps on integer fields: step(alpha a + beta b) = alpha step(a) + beta step(b) exactly",
         "stepped records: T forward() steps from random initial fields with sources whose static_amplitude_factor is A_k, B_k, alpha A_k + beta B_k; compared after every step",
         "pipeline records: run_fdtd on scenes with absorbing/periodic/PEC/PMC faces; field and phasor detector records superpose, energy and Poynting-flux records of a run with all factors scaled by alpha equal alpha^2 times the reference",
+        "fully anisotropic 3x3 inv_eps / inv_mu (direct replacement in stepped records, Material with a 3x3 permittivity in run_fdtd records) with plane / Gaussian sources and amplitude factors != 1 are included",
         "tolerance 1e-11 relative to |alpha| max|a| + |beta| max|b| (alpha^2 max|a| for quadratic records), float64",
     ]
 
@@ -59,6 +60,33 @@ def gen_cases(ctx):
         fb = [rng.choice([1.0, -0.75, 3.0, 0.0]) for _ in srcs]
         cases.append({"id": f"s-step{n}-{'x'.join(map(str, shape))}-k{'.'.join(map(str, kinds))}", "mode": "step", "cfg": cfg, "fa": fa, "fb": fb,
                       "ab": [rng.choice(COEFS), rng.choice(COEFS)], "seed": rng.randrange(10**6)})
+    # fully anisotropic (3x3) permittivity / permeability with plane sources and amplitude factors != 1
+    for n in range(2 if ctx.quick else 12):
+        shape = [rng.randint(3, 4), rng.randint(3, 4), rng.randint(3, 4)]
+        kinds = [rng.choice([1, 9, 10, 12]) for _ in range(3)]
+        srcs = []
+        for k in range(rng.randint(1, 2)):
+            ax = rng.randrange(3)
+            srcs.append({"kind": rng.choice(["plane", "gauss"]), "name": f"s{k}", "axis": ax, "at": rng.randrange(shape[ax]), "dir": rng.choice(["+", "-"]),
+                         "pol": (ax + rng.choice([1, 2])) % 3, "switch": rng.choice([{}, {"interval": 2}]), "profile": rng.choice(["single", "gauss"])})
+        if n % 2 == 1:
+            srcs.append({"kind": "dipole", "name": "sd", "pos": [1, 1, 1], "pol": rng.randrange(3)})
+        cfg = {"shape": shape, "kinds": kinds, "T": 5, "sources": srcs, "tensor": rng.randrange(10**6)}
+        fa = [rng.choice([0.5, -1.5, 2.0]) for _ in srcs]
+        fb = [rng.choice([-0.75, 3.0, 1.0]) for _ in srcs]
+        cases.append({"id": f"s-tensor{n}-{'x'.join(map(str, shape))}-k{'.'.join(map(str, kinds))}", "mode": "step", "cfg": cfg, "fa": fa, "fb": fb,
+                      "ab": [rng.choice(COEFS), rng.choice(COEFS)], "seed": rng.randrange(10**6)})
+    for n in range(1 if ctx.quick else 6):
+        cfg = Y.pipeline_scene(rng)
+        c2 = cfg["shape"][2] // 2
+        cfg["slab"] = {"lo": [0, 0, c2 - 1], "hi": [cfg["shape"][0], cfg["shape"][1], c2 + 1], "eps": [[2.2, 0.3, 0.1], [0.3, 2.0, 0.2], [0.1, 0.2, 2.5]]}
+        ax = 2
+        cfg["sources"][0] = {"kind": "plane", "name": "s0", "wl": 500e-9, "amp": 1.0, "switch": {}, "profile": "single", "axis": ax,
+                             "at": c2 - 2, "dir": "+", "pol": rng.choice([0, 1])}
+        fa = [rng.choice([0.5, -1.5, 3.0]) for _ in cfg["sources"]]
+        fb = [rng.choice([-0.75, 2.0]) for _ in cfg["sources"]]
+        cases.append({"id": f"p-tensor{n}-{'x'.join(map(str, cfg['shape']))}-k{'.'.join(map(str, cfg['kinds']))}-pml{len(cfg['pml_faces'])}", "mode": "pipeline", "cfg": cfg,
+                      "fa": fa, "fb": fb, "ab": [rng.choice(COEFS), rng.choice(COEFS)], "seed": rng.randrange(10**6)})
     for n in range(3 if ctx.quick else 24):
         cfg = Y.pipeline_scene(rng)
         fa = [rng.choice([1.0, 0.5, -1.5]) for _ in cfg["sources"]]
@@ -119,6 +147,8 @@ def observe(case):
         cplx = None
         for f in (fa, fb, fc):
             obj, arrays, config = Y.build(_with_factors(cfg, f))
+            if cfg.get("tensor") is not None:
+                arrays = Y.full_tensor(cfg, arrays, cfg["tensor"])
             fwd, _, arrays, config = Y.steppers(obj, arrays, config)
             runs.append((jax.vmap(fwd), Y.field_dtype(arrays)))
         dt = runs[0][1]
